@@ -68,7 +68,10 @@ pub open spec fn pipeline_ok(t: Seq<Ev>, p: ast::Pipeline, outer: bool, r: Execu
     &&& t[0].node == Node::Spawn(p) && t[0].ok && t[0].suppress == exempt      // `!` and exempt callers suppress errexit inside
     &&& t[1].node == Node::Wait(p) && t[1].ok && t[1].suppress == exempt
     &&& ({
-        let code = if p.bang { invert(t[1].code) } else { t[1].code };
+        // `!`: the status is negated (POSIX 2.9.2) -- unless a return or exit is passing through: those leave with their own
+        // status before the negation applies (bash: f() { ! return 3; } returns 3); break/continue do get negated (bash)
+        let unwinding = t[1].cf is ReturnFromFunctionOrScript || t[1].cf is ExitShell;
+        let code = if p.bang && !unwinding { invert(t[1].code) } else { t[1].code };
         let base = ExecutionResult { next_control_flow: t[1].cf, exit_code: code };
         let trap_due = !(code is Success) && !exempt && t[1].aux.handles_err;
         &&& status == u8_of(code)
